@@ -619,9 +619,9 @@ def run(spec, tier, seed, replay=None):
     finally:
         if os.path.realpath(REPO) != "/repo":
             # a run against a scratch tree must not leave ITS generated tables behind for the next run / a commit
-            subprocess.run(["git", "-C", VERIF, "checkout", "--", "lean/OtelVerif/Gen"], capture_output=True)
-            # the committed copy may itself be stale and untracked generated files are not restored by git:
-            # regenerate this property's files from /repo (still under the lock)
+            # regenerate this property's generated files from /repo (still under the lock). No `git checkout` of the Gen
+            # directory: the committed copies may be stale, and checking them out would also roll back OTHER properties'
+            # generated files, which this run never touched
             env = {k: v for k, v in os.environ.items() if k != "VERIF_REPO"}
             subprocess.run([sys.executable, os.path.join(VERIF, "tools", "regen.py"), spec.pid], env=env, capture_output=True)
         fcntl.flock(lock, fcntl.LOCK_UN)
